@@ -12,6 +12,14 @@ Variable include_file : str -> pstate -> res pstate.
 Variable macroses : list (str * list (N * str)).      (* the macros recorded by the parser *)
 
 Definition non_empty (l : list segment) : list segment := filter (fun s => negb (seg_is_empty s)) l.
+(** what an expansion hands over: its segments without the empty ones - except the last, which is where the body left off
+    (a body that ends with a segment directive or .org hands that position to what follows the call) *)
+Fixpoint but_last_non_empty (l : list segment) : list segment :=
+  match l with
+  | [] => []
+  | [s] => [s]
+  | s :: r => if seg_is_empty s then but_last_non_empty r else s :: but_last_non_empty r
+  end.
 
 (** macro_expand: substitute the arguments, parse the body into fresh segments *)
 Definition substitute (ops : list iop) (body : list (N * str)) : list (N * str) :=
@@ -34,7 +42,7 @@ Definition macro_expand (line : N) (name : str) (ops : list iop) (st : pstate) :
       let ls := substitute ops body in
       do r <- parse_iter fuel include_file (S (length ls)) ls false inner;
       Ok ({| segs := segs st; macro_name := macro_name r; macros := macros r; msgs := msgs r; pcx := pcx r; fl := fl st |},
-          non_empty (segs r))
+          but_last_non_empty (segs r))
   end.
 
 (** pass0_internal; [depth] = how many more levels of macro calls may be entered (MAX_MACRO_DEPTH = 64) *)
